@@ -22,6 +22,18 @@ ASSUMPTIONS = [
 
 def gen_case(r):
     d = G.hostile_doc(r, 4 if r.coin(50) else 3)
+    if r.pct() < 2:
+        # a mapping (or list) of a thousand and more items, with rule paths through keys it has and keys it lacks
+        from ..terms import RuleT, PathT, Prim, Leaf, Part
+        n_ = r.choice([1023, 1024, 1025, 1500])
+        big = {f"k{i}": G.hostile_scalar(r) for i in range(n_)} if r.coin(70) else [G.hostile_scalar(r) for _ in range(n_)]
+        d = {"big": big, "small": {"k1": "true"}} if r.coin() else big
+        pre = [Prim("big")] if isinstance(d, dict) and "big" in d else []
+        keys = ["k1", "absent", "k1024", 5, 2000, 2.5]
+        rules = [RuleT(PathT(pre + [Prim(r.choice(keys))] + ([Prim("size")] if r.coin(30) else [])),
+                       G.tree(r, ("value",), "typed", 1), r.choice([None, "bool", "int"])) for _ in range(r.between(1, 3))]
+        rules.append(RuleT(PathT(pre + [Part(r.choice(["map", "list", "mol"]))]), G.tree(r, ("value",), "typed", 1)))
+        return d, SchemaT(rules), r.coin()
     n = r.between(1, 4)
     rules = []
     for _ in range(n):
